@@ -150,11 +150,17 @@ type stubHist struct {
 	under, over uint
 	counts      []uint
 	min, width  float64
+	curved      bool // bins that are neither linear nor geometric: edges at min + width*bin^2
 }
 
-func (h *stubHist) Add(x float64)                  {}
-func (h *stubHist) Counts() (uint, []uint, uint)   { return h.under, h.counts, h.over }
-func (h *stubHist) BinToValue(bin float64) float64 { return h.min + bin*h.width }
+func (h *stubHist) Add(x float64)                {}
+func (h *stubHist) Counts() (uint, []uint, uint) { return h.under, h.counts, h.over }
+func (h *stubHist) BinToValue(bin float64) float64 {
+	if h.curved {
+		return h.min + h.width*bin*bin
+	}
+	return h.min + bin*h.width
+}
 
 type ctx struct {
 	p       *Prop
@@ -669,16 +675,30 @@ func (p *Prop) Run(t *simhook.Tape, opt simkit.RunOpt) *simkit.RunResult {
 		sh.nbins = pickBins(g)
 		st := &stubHist{min: float64(g.Range(-5, 5)), width: float64(g.Range(1, 4)), counts: make([]uint, sh.nbins)}
 		sh.min, sh.max = st.min, st.min+st.width*float64(sh.nbins)
+		if g.Chance(1, 3) {
+			// a user histogram whose BinToValue is not linear inside a bin: the
+			// in-bin interpolation must go through the histogram's own BinToValue
+			st.curved = true
+			c.probe("stub_histogram_with_nonlinear_bins")
+		}
 		if g.Chance(1, 2) {
 			st.under = uint(g.Range(0, 6))
 		}
 		if g.Chance(1, 2) {
 			st.over = uint(g.Range(0, 6))
 		}
+		big := g.Chance(1, 4)
 		for i := range st.counts {
 			if g.Chance(2, 3) {
 				st.counts[i] = uint(g.Range(0, 8))
+				if big && g.Chance(1, 2) {
+					// counts no producer in this harness could add one by one: 2^k-1, 2^k, 2^k+1 up to 2^40
+					st.counts[i] = uint(1)<<uint(g.Range(8, 40)) + uint(g.Range(0, 2)) - 1
+				}
 			}
+		}
+		if big {
+			c.probe("stub_histogram_with_huge_counts")
 		}
 		build = func() { c.h = st }
 		if opt.Counting {
